@@ -6,7 +6,7 @@ import FancyModel.Lemmas.AVM2Defs
 structured whole-copy configuration it represents (`Inv2`, Lemmas/AuxStack.lean) — for ALL
 instructions (`Delegate` under `DelegOK`). `link2` / `link2_initial`: whenever `Big2` ends with an
 answer, `runLoop` returns that answer (`Good2`: up to the cells beyond `nS`) or stops for a resource
-reason. `Big2_det`: `Big2` is deterministic.
+reason.
 -/
 namespace Fancy
 open State
@@ -430,7 +430,7 @@ def Follows2 (c : Ctx) (prog : List Insn) (nS : Nat) (o : VMOpts) (a : Ans) : SC
 theorem link2 (c : Ctx) (prog : List Insn) (nS : Nat) (o : VMOpts) (hd : DelegOK c prog nS)
     (cfg : SCfg) (a : Ans) (h : Big2 c prog nS cfg a) : Follows2 c prog nS o a cfg := by
   induction h with
-  | done pc ix slots astk stack hend hn hlen =>
+  | done pc ix slots astk stack k hend hk hkn hlen =>
     intro s σ hi hσ fuel st
     cases fuel with
     | zero => left; rfl
@@ -443,7 +443,10 @@ theorem link2 (c : Ctx) (prog : List Insn) (nS : Nat) (o : VMOpts) (hd : DelegOK
       right; right; right
       refine ⟨s'.saves, rfl, ?_⟩
       have htake : s.saves.take nS = slots := hi.rep.1.2.1
-      rw [h2, capSaves_take s.saves c.pos nS hn hge, htake]
+      have hcs : (capSaves slots c.pos).length = nS := by
+        rw [← hlen]; unfold capSaves; split <;> simp
+      rw [List.length_take, hcs, Nat.min_eq_left hkn, h2, ← htake, ← capSaves_take s.saves c.pos nS (by omega) hge,
+        List.take_take, Nat.min_eq_left hkn]
   | step pc ix slots astk stack cfg' a hstep hbig ih =>
     intro s σ hi hσ fuel st
     cases fuel with
@@ -483,28 +486,6 @@ theorem link2_initial (c : Ctx) (p : Prog) (o : VMOpts) (hd : DelegOK c p.body p
     (h : Big2 c p.body p.nSaves (.run 0 c.pos (List.replicate p.nSaves UNSET) [] []) a) (fuel : Nat) :
     Good2 p.nSaves (run c p o fuel).1 a :=
   link2 c p.body p.nSaves o hd _ a h _ _ (inv2_init p.nSaves o.maxStack) rfl fuel {}
-
-/-! ## determinism -/
-
-/-- `Big2` is deterministic -/
-theorem Big2_det (c : Ctx) (prog : List Insn) (nS : Nat) (cfg : SCfg) (a a' : Ans)
-    (h : Big2 c prog nS cfg a) (h' : Big2 c prog nS cfg a') : a = a' := by
-  induction h generalizing a' with
-  | done pc ix slots astk stack hend hn hlen =>
-    cases h' with
-    | done => rfl
-    | step _ _ _ _ _ cfg' _ hstep _ => simp [sstep, hend] at hstep
-  | step pc ix slots astk stack cfg' a hstep hbig ih =>
-    cases h' with
-    | done _ _ _ _ _ hend => simp [sstep, hend] at hstep
-    | step _ _ _ _ _ cfg'' _ hstep' hbig' =>
-      rw [hstep] at hstep'
-      cases hstep'
-      exact ih a' hbig'
-  | failEmpty => cases h'; rfl
-  | failPop b rest a hbig ih =>
-    cases h' with
-    | failPop _ _ _ hbig' => exact ih a' hbig'
 
 /-! ## a concrete non-trivial instance: the hypotheses of the theorems are satisfiable
 
@@ -560,7 +541,7 @@ theorem exBig2 (c : Ctx) :
     simp [sstep, exProg, delegateOracle, semKConcat, copyGroupsA, St.slot, clearGroups, viewSlots]
   refine .step _ _ _ _ _ _ _ h4 ?_
   refine .step _ _ _ _ _ _ _ (by rfl : sstep c exProg 2 5 _ _ _ _ = some _) ?_
-  have := Big2.done (c := c) (prog := exProg) (nS := 2) 6 c.pos [c.pos, c.pos] [] [] rfl (by decide) rfl
+  have := Big2.done (c := c) (prog := exProg) (nS := 2) 6 c.pos [c.pos, c.pos] [] [] 2 rfl (by decide) (by decide) rfl
   simpa [capSaves] using this
 
 example (c : Ctx) (o : VMOpts) : Follows2 c exProg 2 o (.matched [c.pos, c.pos])
@@ -570,9 +551,5 @@ example (c : Ctx) (o : VMOpts) : Follows2 c exProg 2 o (.matched [c.pos, c.pos])
 example (c : Ctx) (o : VMOpts) (fuel : Nat) :
     Good2 2 (run c ⟨exProg, 2⟩ o fuel).1 (.matched [c.pos, c.pos]) :=
   link2_initial c ⟨exProg, 2⟩ o (exDelegOK c) _ (exBig2 c) fuel
-
-example (c : Ctx) (a : Ans) (h : Big2 c exProg 2 (.run 0 c.pos (List.replicate 2 UNSET) [] []) a) :
-    a = .matched [c.pos, c.pos] :=
-  Big2_det c exProg 2 _ _ _ h (exBig2 c)
 
 end Fancy
